@@ -196,8 +196,8 @@ func init() {
 		c07BuildPool()
 		c07BuildBig()
 	})
-	tripleCases := map[core.Tier]int{core.Quick: 64, core.Thorough: 2000}
-	selCases := map[core.Tier]int{core.Quick: 400, core.Thorough: 20000}
+	tripleCases := map[core.Tier]int{core.Quick: 64, core.Thorough: 60000}
+	selCases := map[core.Tier]int{core.Quick: 400, core.Thorough: 200000}
 	core.Register(&core.Prop{
 		ID:    "C07",
 		Level: "exploration",
